@@ -19,6 +19,12 @@ MULT_TOL = Fraction(1, 10 ** 7)     # helpers.find_multiplicity: tol = 10e-8
 
 def _curve_shapes(pmax, extra, rational_for):
     out = []
+    if pmax < 5:
+        # a few high degrees in every tier: the "load remaining control points" part of A5.1 only runs for degree >= 4
+        out += [dict(p=4, mult=[], r=1, rational=False, dim=2), dict(p=4, mult=[1], r=1, rational=False, dim=2),
+                dict(p=5, mult=[], r=1, rational=False, dim=2), dict(p=5, mult=[], r=2, rational=False, dim=2)]
+        if pmax < 4:
+            out += [dict(p=4, mult=[], r=2, rational=False, dim=2), dict(p=4, mult=[2], r=1, rational=False, dim=2)]
     for p in range(1, pmax + 1):
         for k in range(0, extra + 1):            # k = number of interior knots (with multiplicity)
             for mult in shapes.compositions(k, p):
